@@ -20,6 +20,7 @@ use pumpkin_solver::Solver;
 use crate::drive::*;
 use crate::orch::guard;
 use crate::refmodel::*;
+use pumpkin_solver::variables::TransformableVariable;
 
 /// Values of the model's variables in a solution; Err if some variable has no value.
 pub fn extract(sol: &Solution, ids: &[DomainId]) -> Result<Vec<i32>, String> {
@@ -29,7 +30,24 @@ pub fn extract(sol: &Solution, ids: &[DomainId]) -> Result<Vec<i32>, String> {
             return Err(format!("solution does not contain variable x{i}"));
         }
         match guard(|| sol.get_integer_value(*id)) {
-            Ok(v) => out.push(v),
+            Ok(v) => {
+                // the same value read through views and through a reference to the solution
+                let through_views = guard(|| {
+                    let r = sol.as_reference();
+                    (
+                        sol.get_integer_value(id.scaled(-2)),
+                        sol.get_integer_value(id.offset(7)),
+                        sol.get_integer_value(id.scaled(3).offset(-1)),
+                        r.get_integer_value(*id),
+                        r.get_integer_value(id.scaled(-1).offset(2)),
+                    )
+                });
+                let expected = (v.wrapping_mul(-2), v.wrapping_add(7), v.wrapping_mul(3).wrapping_sub(1), v, v.wrapping_neg().wrapping_add(2));
+                if v.unsigned_abs() < 100_000_000 && through_views != Ok(expected) {
+                    return Err(format!("x{i} = {v}, but read through the views -2x, x+7, 3x-1 and a solution reference (x, -x+2): {through_views:?}"));
+                }
+                out.push(v)
+            }
             Err(e) => return Err(format!("variable x{i} has no value in the solution: {e}")),
         }
     }
